@@ -1,7 +1,7 @@
 (* C07/Proofs.v — lemmas behind Properties.v (the codec lemmas live in coq/TrieCodec). *)
 From Common Require Import Bytes Outcome Blake2b.
-From TrieCodec Require Import Codec View ProofsBasic ProofsHeader ProofsDecode ProofsTotal.
-From C07 Require Import Model.
+From TrieCodec Require Import Codec View Dencode ProofsBasic ProofsHeader ProofsDecode ProofsTotal ProofsDencode.
+From C07 Require Import Model Gen.
 Local Open Scope N_scope.
 
 (* Blake2b-256 digests are 32 bytes long: the hypothesis of the round-trip theorem holds for
@@ -32,3 +32,52 @@ Proof. apply okerr_cases, decode_total. Qed.
 Lemma total_codec st bs :
   (exists r, codec_decode st bs = Ok r) \/ (exists c, codec_decode st bs = Err c).
 Proof. apply okerr_cases, cdecode_total. Qed.
+
+(* re-encoding a decoded node (repaired Encode) *)
+Lemma reencode_view H (Hlen : forall x, length (H x) = 32%nat) st fixed n : wf_node n = true ->
+     node_reencode H (view H n) = encode H n
+  /\ decode st fixed (node_reencode H (view H n)) = Ok (Some (view H n)).
+Proof.
+  intro W. split; [exact (dencode_view H Hlen n W)|exact (decode_dencode_view H Hlen st fixed n W)].
+Qed.
+
+(* the pinned Encode: a V1 leaf {key nibbles 1, value of 33 bytes, hashed} decodes to a leaf holding
+   the value hash; encoding that node again gives a plain leaf whose inline value is the hash *)
+Definition ex_hashed_leaf : tnode := TN [n2b 1] (Some (repeat (n2b 7) 33)) true [].
+Lemma reencode_pinned_witness :
+  let n := ex_hashed_leaf in
+  let h := blake2b_256 (repeat (n2b 7) 33) in
+     wf_node n = true
+  /\ view blake2b_256 n = DLeaf [n2b 1] (DVHashed h)
+  /\ encode blake2b_256 n = n2b 33 :: n2b 1 :: h
+  /\ node_reencode_pinned blake2b_256 (view blake2b_256 n) = n2b 65 :: n2b 1 :: n2b 128 :: h
+  /\ (forall st, node_decode st (node_reencode_pinned blake2b_256 (view blake2b_256 n))
+                 = Ok (Some (DLeaf [n2b 1] (DVInline (h, 0)))))
+  /\ node_reencode blake2b_256 (view blake2b_256 n) = encode blake2b_256 n.
+Proof.
+  cbv zeta. repeat split; try (vm_compute; reflexivity).
+  intros [[|] [|]]; vm_compute; reflexivity.
+Qed.
+
+(* ------------------------------------------------------------------ constants of the Go source
+   (coq/C07/Gen.v is regenerated from /repo by every check run: a changed constant breaks these) *)
+Example gen_children_capacity : Z.of_nat (length child_indices) = Gen.children_capacity.
+Proof. reflexivity. Qed.
+Example gen_codec_children_capacity : Z.of_nat (length child_indices) = Gen.codec_children_capacity.
+Proof. reflexivity. Qed.
+(* decodeHashedValue reads exactly common.HashLength bytes *)
+Example gen_hash_length_hashed_value r d r' :
+  dec_hashed r = Ok (d, r') -> Z.of_N (lenN d) = Gen.hash_length.
+Proof.
+  unfold dec_hashed, rd. destruct r as [|x r0]; [discriminate|].
+  destruct (lenN (takeN 32 (x :: r0)) <? 32) eqn:E; [discriminate|].
+  intro Hd. assert (Hd' : d = takeN 32 (x :: r0)) by congruence. subst d.
+  pose proof (lenN_takeN_le 32 (x :: r0)). unfold Gen.hash_length. lia.
+Qed.
+(* a child whose encoding is shorter than common.HashLength is inlined, otherwise hashed *)
+Example gen_hash_length_merkle_value H e :
+  merkle_value H e = if (Z.of_nat (length e) <? Gen.hash_length)%Z then e else H e.
+Proof.
+  unfold merkle_value, Gen.hash_length.
+  destruct (Nat.ltb_spec (length e) 32), (Z.ltb_spec (Z.of_nat (length e)) 32); try lia; reflexivity.
+Qed.
